@@ -2,6 +2,7 @@
 from __future__ import annotations
 
 import itertools
+import os
 from fractions import Fraction as Fr
 from math import floor
 
@@ -31,7 +32,9 @@ META = {
 
 @st.composite
 def milps(draw, tier="quick"):
-    family = draw(st.sampled_from(["uniform", "uniform", "binary-explicit", "binary-implicit", "trap", "unboxed"]))
+    family = draw(st.sampled_from(["uniform", "uniform", "binary-explicit", "binary-implicit", "trap", "unboxed", "parallel-objective", "parallel-objective", "binary-knapsack", "binary-knapsack"]))
+    if os.environ.get("C04_FAMILY"):  # experiments only: measure one family's hit rate against a seeded change
+        family = os.environ["C04_FAMILY"]
     minimize = draw(st.booleans())
     nmax = 5 if tier == "thorough" else 4
     if family == "trap":
@@ -61,6 +64,38 @@ def milps(draw, tier="quick"):
         # the family is a maximisation; present it as min of -c half of the time
         if minimize:
             c = [-v for v in c]
+    elif family == "parallel-objective":
+        # the objective is (minus) a constraint row with non-dyadic divisors (3, 5, 7): the LP optimum is the whole
+        # face a.x = b, its value is an integer that the float simplex reaches as b +- 1e-15, its vertices are fractional
+        n = draw(st.integers(2, 3))
+        row = [draw(st.sampled_from([-3, 3, 3, 5, -5, 7, 1, -1, 2])) for _ in range(n)]
+        bb = draw(st.integers(1, 12))
+        A = [row]
+        b = [bb]
+        for _ in range(draw(st.integers(0, 2))):
+            A.append([draw(st.integers(-3, 5)) for _ in range(n)])
+            b.append(draw(st.integers(2, 14)))
+        U = draw(st.integers(2, 4))
+        for j in range(n):
+            A.append([1 if k == j else 0 for k in range(n)])
+            b.append(U)
+        integers = list(range(n)) if draw(st.booleans()) else [j for j in range(n) if draw(st.booleans())] or [0]
+        c = [-v for v in row] if minimize else list(row)  # improving direction is "increase a.x" either way
+    elif family == "binary-knapsack":
+        # 0/1 programs with 1-2 packing rows, tight capacities and explicit unit rows: the rounding + swap heuristic
+        # has to make several successive swaps
+        n = draw(st.integers(3, 5))
+        A = [[draw(st.integers(0, 5)) for _ in range(n)] for _ in range(draw(st.integers(1, 2)))]
+        b = [draw(st.integers(max(1, max(r) - 1), max(2, max(r) - 1, sum(r) // 2 + 1))) for r in A]
+        if draw(st.integers(0, 3)) == 0:
+            A.append([draw(st.integers(-2, 2)) for _ in range(n)])
+            b.append(draw(st.integers(0, 2)))
+        for j in range(n):
+            A.append([1 if k == j else 0 for k in range(n)])
+            b.append(1)
+        vals = [draw(st.integers(0, 5)) for _ in range(n)]
+        c = [-v for v in vals] if minimize else vals
+        integers = list(range(n))
     else:
         n = draw(st.integers(1, nmax))
         m = draw(st.integers(1, 4))
@@ -86,6 +121,13 @@ def milps(draw, tier="quick"):
                 A.append([draw(st.integers(1, 3)) if k == j else draw(st.integers(0, 1)) for k in range(n)])
                 b.append(draw(st.integers(1, 6)))
         # "unboxed": nothing added
+    if draw(st.integers(0, 2)) == 0:
+        # extra single-variable rows a*x_j <= b2 (a second, possibly tighter, bound on the same variable)
+        for _ in range(draw(st.integers(1, 2))):
+            j = draw(st.integers(0, len(c) - 1))
+            a = draw(st.integers(1, 3))
+            A.append([a if k == j else 0 for k in range(len(c))])
+            b.append(draw(st.integers(0, 3 * a)))
     order = draw(st.permutations(range(len(b))))
     A = [A[i] for i in order]
     b = [b[i] for i in order]
@@ -96,12 +138,12 @@ def milps(draw, tier="quick"):
         "b": b,
         "integers": integers,
         "minimize": minimize,
-        "heuristics": draw(st.booleans()),
+        "heuristics": True if family == "binary-knapsack" else draw(st.booleans()),
         "lns_iterations": draw(st.sampled_from([0, 0, 1, 3, 10])),
         "seed": draw(st.integers(0, 99)),
         "solution_limit": draw(st.sampled_from([1, 1, 1, 2, 3, 10])),
         "max_nodes": draw(st.sampled_from([None] * 7 + [1, 2, 5])),
-        "warm": draw(st.sampled_from(["none", "none", "none", "optimal", "feasible", "infeasible", "fractional", "wrong-length", "feasible-but-negative", "feasible-but-fractional", "feasible-but-row-violated"])),
+        "warm": "none" if family == "binary-knapsack" and draw(st.integers(0, 3)) else draw(st.sampled_from(["none", "none", "none", "optimal", "feasible", "infeasible", "fractional", "wrong-length", "feasible-but-negative", "feasible-but-fractional", "feasible-but-row-violated"])),
         "warm_pick": draw(st.integers(0, 10**6)),
     }
 
@@ -298,4 +340,4 @@ def run(desc, ctx):
         raise Inconclusive("status-" + status)
 
 
-SUBS = [Sub("solve_milp", run, strategy=lambda tier: milps(tier), quick=1500, thorough=8000, workers_quick=4)]
+SUBS = [Sub("solve_milp", run, strategy=lambda tier: milps(tier), quick=4000, thorough=12000, workers_quick=4)]
